@@ -139,7 +139,18 @@ var fsPhase = phaseCfg{ID: "fs", CwdRel: "", Roots: []rootCfg{
 	{"mapfs-slashL", "mapfs", "/"},
 	{"dirfs", "dirfs", ""},
 	{"dirfs-slashL", "dirfs", "/"},
+	{"rootfs", "rootfs", ""},
+	{"rootfs-slashL", "rootfs", "/"},
 }}
+
+// onDisk: the file system is the real directory tree B/root (os.DirFS, or the os.Root behind
+// lisp.NewRootedFSLibrary, which is how elps run/debug/repl --root-dir confine loads).
+func onDisk(spelling string) bool { return spelling == "dirfs" || spelling == "rootfs" }
+
+// followsLinksOut: os.DirFS opens whatever a symbolic link inside its directory points to ("DirFS is not a general
+// substitute for a chroot-style security mechanism", package os).  An FSLibrary over it serves exactly what that file
+// system serves; the confinement of a configured ROOT DIRECTORY is the rootfs kind's subject.
+func followsLinksOut(spelling string) bool { return spelling == "dirfs" }
 
 func loaderLoc(family, rel string) string {
 	switch family {
@@ -434,7 +445,8 @@ type worker struct {
 	used      bool
 	entry     int
 	asked     []string
-	dirFS     fs.FS                   // os.DirFS(B/root), as cmd/run.go builds it
+	dirFS     fs.FS                   // os.DirFS(B/root)
+	rootFS    fs.FS                   // the file system of lisp.NewRootedFSLibrary(B/root), as cmd/run.go builds it
 	progs     map[string]lisp.Program // loading files, parsed once per (location, content)
 	hlocs     []string                // history part: the locations a hist.lisp loader asks for
 	hasked    []int                   // history part: len(asked) when each nested operation started
@@ -471,6 +483,11 @@ func (b bdef) Eval(env *lisp.LEnv, args *lisp.LVal) *lisp.LVal { return b.fn(env
 func newWorker(sb *sandbox) *worker {
 	w := &worker{sb: sb, outcomes: map[outKey]int64{}, info: map[string]int64{}, hstates: map[string]struct{}{}, sbase: map[string]string{}, cbase: map[string]string{}, progs: map[string]lisp.Program{}}
 	w.dirFS = os.DirFS(sb.B + "/root")
+	if lib, err := lisp.NewRootedFSLibrary(sb.B + "/root"); err == nil {
+		w.rootFS = lib.FS
+	} else {
+		panic("c20: NewRootedFSLibrary: " + err.Error())
+	}
 	w.freshEnv()
 	return w
 }
@@ -556,6 +573,9 @@ func (w *worker) libFor(part string, rc *rootCfg) lisp.SourceLibrary {
 	if part == "fs" {
 		if rc.Spelling == "dirfs" {
 			return &lisp.FSLibrary{FS: recFS{inner: w.dirFS, asked: &w.asked}}
+		}
+		if rc.Spelling == "rootfs" {
+			return &lisp.FSLibrary{FS: recFS{inner: w.rootFS, asked: &w.asked}}
 		}
 		return &lisp.FSLibrary{FS: recFS{inner: w.sb.mapfs, asked: &w.asked}}
 	}
@@ -716,10 +736,11 @@ func judge(part string, dirfs bool, vd *verdict, entry int, o *obs) (kind, oclas
 			}
 		}
 		if strings.HasPrefix(s, tagOutside+":") {
-			// FSLibrary{FS: os.DirFS(rootDir)} is exactly what `elps run/debug/repl
-			// --root-dir` configure (cmd/run.go): a root directory is configured
-			// and an outside file is read or evaluated.
-			return "outside-served-through-symlink:" + vd.exitLink[s], "served-OUTSIDE-through-symlink", "refused: with a root directory configured (lisp.FSLibrary{FS: os.DirFS(root)}, as elps run --root-dir builds it) no file whose real path is outside the root is read or evaluated"
+			// only reached for os.DirFS (followsLinksOut): the library serves what the file system it was given
+			// serves.  Until 9f5a4b9 this was how `elps run/debug/repl --root-dir` configured a root directory, and
+			// it was reported (fixed: they now build lisp.NewRootedFSLibrary, the rootfs kind, where an outside
+			// file is "outside-served" above).
+			return "", "served-through-symlink(os.DirFS)", ""
 		}
 		if o.isErr {
 			return "", "served-then-error", ""
@@ -827,9 +848,9 @@ func runKase(sb *sandbox, cwd *node, k kase) (kind, class, expected, got string,
 	loc := sb.expand(k.Loc)
 	L, altL, execL := locations(sb, rc, cx)
 	var vd verdict
-	dirfs := k.Part == "fs" && rc.Spelling == "dirfs"
+	dirfs := k.Part == "fs" && followsLinksOut(rc.Spelling)
 	if k.Part == "fs" {
-		vd, _ = sb.fsVerdict(dirfs, L, altL, loc, false)
+		vd, _ = sb.fsVerdict(onDisk(rc.Spelling), L, altL, loc, false)
 	} else {
 		vd, _ = sb.rflVerdict(cwd, L, altL, loc, false)
 	}
@@ -1124,12 +1145,12 @@ func run(r *core.Run) {
 				cx := &contexts[ci]
 				for ri := range ph.Roots {
 					rc := &ph.Roots[ri]
-					dirfs := rc.Spelling == "dirfs"
+					dirfs := followsLinksOut(rc.Spelling)
 					L, altL, execL := locations(sb, rc, cx)
 					if cx.Rel == "" && rc.Family != "" {
 						continue // top level has no loader location to spell differently
 					}
-					vd, herr := sb.fsVerdict(dirfs, L, altL, loc, !cx.Chain)
+					vd, herr := sb.fsVerdict(onDisk(rc.Spelling), L, altL, loc, !cx.Chain)
 					w.traces++
 					if herr != nil {
 						r.Violate("c20", herr.class, kase{Part: "fs", Phase: ph.ID, Root: rc.ID, Ctx: cx.ID, Loc: sb.template(loc), Loader: L}, sb.template(herr.expected), sb.template(herr.got), "harness self-check")
